@@ -95,4 +95,24 @@ decreasing_by
   · subst h1; exact absurd (Or.inr ⟨by decide, by decide⟩) h
   omega
 
+/-! ### canonical (shortest) encodings -/
+
+/-- canonical unsigned multi-byte body: continuation bytes ≥ 0x80, last byte in 1..0x7f -/
+def canonULoop : List UInt8 → Bool
+  | [] => false
+  | [b] => decide (0 < b.toNat ∧ b.toNat < 128)
+  | b :: b2 :: bs => decide (128 ≤ b.toNat) && canonULoop (b2 :: bs)
+
+/-- canonical unsigned LEB128: `00`, or a body without a redundant final zero byte -/
+def canonU (bs : List UInt8) : Bool := bs == [0] || canonULoop bs
+
+/-- canonical signed LEB128: continuation bytes ≥ 0x80, last < 0x80, and the last byte is not a
+    redundant sign extension (`00` after a byte with bit 6 clear, `7f` after one with bit 6 set). -/
+def canonS : List UInt8 → Bool
+  | [] => false
+  | [b] => decide (b.toNat < 128)
+  | b :: b2 :: bs =>
+    decide (128 ≤ b.toNat) && canonS (b2 :: bs) &&
+      (!bs.isEmpty || (!(b2.toNat == 0 && b.toNat &&& 0x40 == 0) && !(b2.toNat == 0x7F && b.toNat &&& 0x40 != 0)))
+
 end Amoco.Leb128
